@@ -37,7 +37,7 @@ type dShape struct {
 	Conds []dCond `json:"conds"`
 	NConv int     `json:"nconv"`
 	Sel   string  `json:"sel"`
-	Share bool    `json:"share"`
+	Share string  `json:"share"` // "no", "first", "later"
 }
 type dChunk struct {
 	D string `json:"d"`
@@ -321,7 +321,10 @@ func TestVerifDataMatch(t *testing.T) {
 				els := []string{}
 				for k, d := range c.Els {
 					rx := dRandRegex(rng, c.Cap && k == 0)
-					if sh.Share && k == 0 {
+					if sh.Share == "first" && k == 0 {
+						rx = shared
+					}
+					if sh.Share == "later" && ((ci == 0 && k == len(c.Els)-1) || ci == 1) {
 						rx = shared
 					}
 					if c.Cap && k == len(c.Els)-1 {
